@@ -20,7 +20,8 @@ type guard struct {
 
 func fresh[T any](g *guard, v *T, write bool) {
 	cur := rt.RunEpoch()
-	if g.set && g.ep != 0 && g.ep != cur {
+	if g.set && g.ep != 0 && cur != 0 && g.ep != cur {
+		// (a harness that reads a counter after its run has ended - cur == 0 - sees the run's value)
 		var zero T
 		*v = zero
 		g.set = false
